@@ -215,6 +215,57 @@ class _SchemaModel:
             raise Raised("ValidationError", str(ex))
 
 
+def written_features(repo, it, S, ms, flavor):
+    """the feature records gene_to_feature writes for the models `ms` (in that order), as Biopython hands them back"""
+    par = chrom_parent(it, GENOME, alphabet="NT_EXTENDED")
+    table = "PROKARYOTE" if flavor == "PROKARYOTIC" else "DEFAULT"
+    f = repo.fn(f"{W}:gene_to_feature")
+    feats = []
+    for m in ms:
+        g = build_gene_obj(it, S, m, par)
+        k, v = run(it, f, [g, it.enum("GenbankFlavor")[flavor], True, it.enum("TranslationTable")[table], False], {}, None)
+        if k != "ok":
+            raise Raised(v)
+        feats += [_as_read_back(it, r_) for r_ in it.iterate(v)]
+    return feats
+
+
+def parse_with(repo, it, pname, feats):
+    """gene models (plain dicts, in chromosome order) the parser class `pname` recovers from the records; ('raise', name) if it
+    refuses them"""
+    from .c08 import plain
+    P = "io.genbank.parser"
+    record = Obj("BioSeqRecord", id="chr1", name="chr1", features=[_copy_feature(x) for x in feats], seq=GENOME)
+
+    def stop_export(interp, selfv, args, kwargs):
+        from ..interp import _Gen
+        return _Gen([])
+    it.hooks[f"{P}:BaseGenBankParser._export_annotation_collections"] = stop_export
+    for mname in ("GeneIntervalModel", "FeatureIntervalCollectionModel", "AnnotationCollectionModel"):
+        it.hooks[f"{mname}.Schema"] = (lambda interp, selfv, args, kwargs, mname=mname: _SchemaModel(it, repo, mname))
+    try:
+        to_model = ("bound", repo.fn(f"{P}:GeneFeature.to_gene_model"), None)
+        to_fmodel = ("bound", repo.fn(f"{P}:FeatureIntervalGenBankCollection.to_feature_model"), None)
+        parser = it.apply(ClassTok(pname), [[record], None, to_model, to_fmodel], {}, None, 0)
+        k, v = run(it, repo.fn(f"{P}:{pname}.parse"), [], {}, parser)
+        if k == "ok":
+            it.iterate(v)
+        else:
+            return ("raise", v)
+        genes = sorted(parser.fields["genes"][0], key=lambda gfeat: gfeat.fields["_seq_feature"].fields["location"].fields["nofuzzy_start"])
+        dicts = []
+        for gfeat in genes:
+            k, d = run(it, repo.fn(f"{P}:GeneFeature.to_gene_model"), [gfeat], {}, None)
+            if k != "ok":
+                return ("raise", d)
+            dicts.append(plain(d))
+        return dicts
+    except Raised as ex:
+        return ("raise", ex.exc_name)
+    finally:
+        it.hooks.pop(f"{P}:BaseGenBankParser._export_annotation_collections", None)
+
+
 def _reparse_case(repo, it, S, spec):
     idxs, flavor = spec
     from .c08 import plain
